@@ -1528,7 +1528,22 @@ func c09CardinalityDecision(w *World) (missing, tooMany string) {
 		}
 		return ""
 	}
-	for _, l := range ssaLoops(f) {
+	// the walk over the table: in checkCardinality, or in a function of the package it hands that part to
+	type tableLoop struct {
+		g *ssa.Function
+		l ssaLoop
+	}
+	var walks []tableLoop
+	for _, g := range bodiesDeep(f, 0) {
+		if g.Pkg != f.Pkg {
+			continue
+		}
+		for _, l := range ssaLoops(g) {
+			walks = append(walks, tableLoop{g, l})
+		}
+	}
+	for _, tl := range walks {
+		f, l := tl.g, tl.l
 		errCond := pcZ
 		body := l.body()
 		for _, b := range f.Blocks {
